@@ -169,6 +169,8 @@ func checkC11(r *core.Run) {
 	ruleExtendMeta(r, "T-extend-meta")
 	r.Rule("T-unschedule: removeDataExpireBlock writes back a list without the id being dropped")
 	ruleUnschedule(r, "T-unschedule")
+	r.Rule("E6-pair(order): the order and shard id counters are restored by InitGenesis from the keys ExportGenesis read them from (a re-issued shard id inherits the stale expiry entries of the removed shard that held it: a paid, unexpired shard is released at the dead shard's height)")
+	ruleGenesisPairs(r, "E6-pair", "order")
 	r.Assume(aDeps)
 	r.Assume(aCG)
 	ruleSchedShard(r)
@@ -466,6 +468,8 @@ func checkC12(r *core.Run) {
 	r.Rule("T-exits: every return of HandleTimeoutOrder passed SetTimeoutOrderBlock or is dominated by an allowed classification")
 	r.Rule("T-nowait: the timeoutCount == 0 branch has no bank effect and its RemoveShard loop ranges over a list fed only under shard.Status != Completed")
 	r.Rule("T-replace: in the timeout handler a stalled shard is closed (status := timeout) only together with a replacement shard task in the same loop iteration; a stalled shard without a replacement stays waiting and is counted again at the next check")
+	r.Rule("T-refund-booked: when the timeout handler drops the unfinished replicas of a partly stored order, the refund of their price lowers Order.Amount by the refunded coin and the order is persisted in the same function (the unfinished part is cancelled AND its price refunded)")
+	ruleRefundBooked(r)
 	r.Assume(aDeps)
 	r.Assume(aCG)
 	ruleReplacePaired(r)
@@ -689,6 +693,16 @@ func checkC13(r *core.Run) {
 	ruleLoopVarAddr(r, "T-loopvar", "sao/keeper.msgServer.")
 	r.Rule("T-shard-owner: a shard record is created naming the order it is created for (OrderId = Id of the *Order handed to the creating function, the order whose Shards the caller extends)")
 	ruleShardOwner(r, "T-shard-owner")
+	r.Rule("G-renew-shards: in Renew the renewal order (which copies the latest order's Shards list verbatim) is created only if EVERY shard of that list was found and is Completed or Migrating (a list entry that is skipped instead — a timed-out shard the timeout sweep will delete — stays listed by the renewal order for good)")
+	{
+		ord := fGetOrder + "(*)#0"
+		sh := "order/keeper.Keeper.GetShard(elem(*" + ord + ".Shards))"
+		evalGuard(r, "G-renew-shards", "sao/keeper.msgServer.Renew", effSel{Calls: []string{"order/keeper.Keeper.RenewOrder"}}, []clause{
+			cl("every-listed-shard-is-completed-or-migrating", guard.ForAll("*"+ord+".Shards",
+				guard.Eq("*"+sh+"#0.Status", constVal(r, "order/types", "ShardCompleted")),
+				guard.Eq("*"+sh+"#0.Status", constVal(r, "order/types", "ShardMigrating")))),
+		}, 1)
+	}
 	r.Assume(aDeps)
 	r.Assume(aCG)
 	aliasKey := "*"
